@@ -25,8 +25,10 @@ N_SIM = {'quick': 600, 'thorough': 5000}
 
 def generate(tier, seed, shard, nshards):
     rng = random.Random(f'C11/{seed}/{shard}')
-    for _ in range(N_MODEL[tier] // nshards):
-        cd = dyn_circuit(rng)
+    for k in range(N_MODEL[tier] // nshards):
+        # one model in four has sources with an internal resistance / conductance (a source that is switched off is then a positive
+        # resistor, so the circuit is as passive as any other); only the matrix invariants are judged for them
+        cd = dyn_circuit(rng, lossy=0.6) if k % 4 == 3 else dyn_circuit(rng)
         if cd is not None:
             yield {'kind': 'model', 'circuit': cd}
             if rng.random() < 0.35:
@@ -121,6 +123,8 @@ def judge(case, ctx, prefix='C11'):
     if case.get('sweep_of_previous'):
         ctx.count('value_sweeps')
     check_matrix(ctx, prefix, cd, ssm.A, cv, lv, ssm)
+    if any(c['ctor'].endswith('source') and (c['args'].get('R', 0) or c['args'].get('G', 0)) for c in cd['components']):
+        ctx.count('matrices_of_circuits_with_lossy_sources')
     if case['kind'] == 'model':
         ctx.evaluated(circdesc.signature(cd, order_class(cd)), True)
         ctx.sample(case)
@@ -156,7 +160,7 @@ def guards(m, tier):
     c = m['counters']
     r = []
     q = tier == 'quick'
-    for k, need in (('matrices_checked', 1000), ('matrices_hostile-order', 300), ('energy_traces_checked', 150)):
+    for k, need in (('matrices_checked', 1000), ('matrices_hostile-order', 300), ('energy_traces_checked', 150), ('matrices_of_circuits_with_lossy_sources', 100)):
         need = need if q else need * 12
         if c.get(k, 0) < need:
             r.append(f'{k} = {c.get(k, 0)} (<{need})')
